@@ -54,6 +54,8 @@ fields(
     m_generic="bool",
     m_level="bool",
     m_count="int",
+    # ghost: "the level has been recorded in state['_level_constrained_values']" (what explain() of level errors needs)
+    g_lcv_level="bool",
 )
 fields(**{k: "int" for k in VideoParameters.entry_objs.keys() if k != "top_field_first"})
 fields(top_field_first="bool")
